@@ -89,6 +89,15 @@ impl Proc {
         }
     }
 
+    /// Resident set size of the worker in kB (0 when unknown).
+    pub fn rss_kb(&self) -> u64 {
+        std::fs::read_to_string(format!("/proc/{}/statm", self.child.id()))
+            .ok()
+            .and_then(|s| s.split_whitespace().nth(1).and_then(|v| v.parse::<u64>().ok()))
+            .map(|pages| pages * 4)
+            .unwrap_or(0)
+    }
+
     pub fn kill(mut self) {
         // VERIF_GRACEFUL: let the worker see end of input and exit on its own (coverage builds
         // write their profile at exit)
@@ -364,6 +373,10 @@ pub fn search(
         handles.push(std::thread::spawn(move || {
             let mut proc_: Option<Proc> = None;
             let mut first = w == 0;
+            // an index whose worker vanished without a panic record is run once more in a fresh
+            // worker: a kill from outside (memory pressure) is not the code under test failing
+            let mut retried: Option<u64> = None;
+            let rss_limit_kb: u64 = std::env::var("VERIF_WORKER_RSS_MB").ok().and_then(|v| v.parse().ok()).unwrap_or(1024) * 1024;
             loop {
                 if Instant::now() >= deadline {
                     break;
@@ -386,7 +399,19 @@ pub fn search(
                         Reply::Done(s) => {
                             let r: RangeResult = serde_json::from_str(&s).expect("range result");
                             let _ = tx.send((job.start, Ok(r)));
+                            // the simulated machines leak (reference cycles between machine and
+                            // protocols): a worker that has grown is replaced
+                            if p.rss_kb() > rss_limit_kb {
+                                if let Some(p) = proc_.take() {
+                                    p.kill();
+                                }
+                            }
                             break;
+                        }
+                        Reply::Died { begun: Some(b), panic: None } if retried != Some(b) => {
+                            proc_ = None;
+                            retried = Some(b);
+                            job.start = b;
                         }
                         Reply::Died { begun, panic } => {
                             proc_ = None;
